@@ -157,6 +157,18 @@ pub mod micromap {
                 },
         { unimplemented!() }
     }
+    impl<'a, K: Ord, V: Ord> Iter<'a, K, V> {
+        /// itertools `sorted()` on the pair iterator: the pairs in the order of `Ord for (&K, &V)`, which - the keys of a
+        /// map being distinct - is the order of their keys
+        #[verifier::external_body]
+        pub fn sorted(self) -> (r: std::vec::IntoIter<(&'a K, &'a V)>)
+            requires self.pos() == 0,
+            ensures
+                r.obeys_prophetic_iter_laws(),
+                r.remaining().len() == self.src().len(),
+                forall|i: int| 0 <= i < self.src().len() ==> *(#[trigger] r.remaining()[i]).0 == sorted_pairs(self.src())[i].0 && *r.remaining()[i].1 == sorted_pairs(self.src())[i].1,
+        { unimplemented!() }
+    }
     // ---- std `map(f).collect::<Vec<_>>()` on the pair iterator (inherent shim methods: vstd's generic adapter model
     // does not work inside functions with generic parameters, and every graph function has the const parameter N) ----
     /// the collection `collect()` builds: a Vec (the only one the graph code collects into)
